@@ -3,11 +3,13 @@
 package proxy
 
 import (
+	"bufio"
 	stdcontext "context"
 	"encoding/json"
 	"errors"
 	"fmt"
 	"io"
+	"net"
 	"net/http"
 	"reflect"
 	"strings"
@@ -57,6 +59,8 @@ type c10PIn struct {
 	Fcodes  []int     `json:"fcodes"`
 	Smax    int64     `json:"smax"`    // pool serverMaxBodySize (0 = default)
 	Slow    int64     `json:"slow"`    // breaker slowCallDurationThreshold in ns (0 = default 1m)
+	Cand    bool      `json:"cand"`    // the configured pool is a CANDIDATE pool (has a filter the requests match) next to a plain main pool
+	Tcp     bool      `json:"tcp"`     // the real sender (client.Do) against a real TCP backend: kind 0 answers, kind 1 reads the request and resets the connection
 	Prelude bool      `json:"prelude"` // before the case: ANOTHER proxy fails with 503/499/408/500 and its responses get rewritten
 	Reqs    []c10PReq `json:"reqs"`
 }
@@ -92,6 +96,8 @@ type c10State struct {
 	hung   bool
 	bodies int
 	smax   int64
+	tcp    bool
+	recv   int // requests the TCP backend received completely
 }
 
 const c10Payload = "c10 request payload"
@@ -137,8 +143,64 @@ var (
 	c10Install sync.Once
 	c10Seq     int64
 	c10SeqMu   sync.Mutex
-	c10BuildMu sync.Mutex // spec validation / proxy construction one at a time
+	c10BuildMu sync.Mutex                                                         // spec validation / proxy construction one at a time
+	c10Orig    func(r *http.Request, client *http.Client) (*http.Response, error) // the package's own sender
 )
+
+// c10Backend is a real TCP backend: it reads one complete request per connection and then, per
+// the script of the client request it belongs to, answers (kind 0) or resets the connection.
+func c10Backend() (addr string, stop func()) {
+	ln, err := net.Listen("tcp", "127.0.0.1:0")
+	if err != nil {
+		panic(fmt.Sprintf("c10: listen: %v", err))
+	}
+	go func() {
+		for {
+			c, err := ln.Accept()
+			if err != nil {
+				return
+			}
+			go c10BackendConn(c)
+		}
+	}()
+	return ln.Addr().String(), func() { ln.Close() }
+}
+
+func c10BackendConn(c net.Conn) {
+	defer c.Close()
+	req, err := http.ReadRequest(bufio.NewReader(c))
+	if err != nil {
+		return
+	}
+	got, _ := io.ReadAll(req.Body)
+	v, ok := c10States.Load(req.Header.Get("X-C10-Id"))
+	if !ok {
+		return
+	}
+	st := v.(*c10State)
+	st.mu.Lock()
+	i := st.recv
+	st.recv++
+	if string(got) == c10Payload {
+		st.bodies++
+	}
+	kind, code := 1, 0
+	if i < len(st.req.Script) {
+		kind, code = st.req.Script[i][0], st.req.Script[i][1]
+	}
+	if i >= st.max+16 {
+		kind, code = 0, 200
+	}
+	st.mu.Unlock()
+	if kind == 0 {
+		fmt.Fprintf(c, "HTTP/1.1 %d c10\r\nContent-Type: text/plain\r\nX-C10-Attempt: %d\r\nContent-Length: 2\r\nConnection: close\r\n\r\nok", code, i)
+		return
+	}
+	// the request has been read completely: now reset the connection (RST, no answer)
+	if tc, ok := c.(*net.TCPConn); ok {
+		tc.SetLinger(0)
+	}
+}
 
 func c10NextID() string {
 	c10SeqMu.Lock()
@@ -153,6 +215,23 @@ func c10Transport(r *http.Request, client *http.Client) (*http.Response, error) 
 		return nil, errors.New("c10: unknown request")
 	}
 	st := v.(*c10State)
+	if st.tcp {
+		// the package's own sender over a real connection; only counted and timed here
+		st.mu.Lock()
+		i := st.calls
+		st.calls++
+		st.starts = append(st.starts, time.Now())
+		st.mu.Unlock()
+		defer func() {
+			st.mu.Lock()
+			st.ends = append(st.ends, time.Now())
+			st.mu.Unlock()
+		}()
+		if i >= st.max+8 {
+			st.cancel()
+		}
+		return c10Orig(r, client)
+	}
 	// the backend consumes the request body of every attempt
 	var got []byte
 	if r.Body != nil {
@@ -270,7 +349,7 @@ func c10ResCode(s string) int {
 }
 
 func c10RunPool(in c10PIn) (obs c10PObs) {
-	c10Install.Do(func() { fnSendRequest = c10Transport })
+	c10Install.Do(func() { c10Orig = fnSendRequest; fnSendRequest = c10Transport })
 	c10BuildMu.Lock()
 	locked := true
 	defer func() {
@@ -287,8 +366,14 @@ func c10RunPool(in c10PIn) (obs c10PObs) {
 		}
 	}()
 
+	url := "http://127.0.0.1:9095"
+	if in.Tcp {
+		addr, stop := c10Backend()
+		defer stop()
+		url = "http://" + addr
+	}
 	pool := map[string]interface{}{
-		"servers": []interface{}{map[string]interface{}{"url": "http://127.0.0.1:9095"}},
+		"servers": []interface{}{map[string]interface{}{"url": url}},
 	}
 	policies := map[string]resilience.Policy{}
 	if in.Timeout > 0 {
@@ -338,6 +423,16 @@ func c10RunPool(in c10PIn) (obs c10PObs) {
 		"name": "c10proxy", "kind": "Proxy",
 		"pools": []interface{}{pool},
 	}
+	if in.Cand {
+		// the pool under test becomes a candidate pool; the main pool has no policy at all
+		pool["filter"] = map[string]interface{}{
+			"headers": map[string]interface{}{"X-C10-Cand": map[string]interface{}{"exact": "1"}},
+		}
+		raw["pools"] = []interface{}{
+			map[string]interface{}{"servers": []interface{}{map[string]interface{}{"url": "http://127.0.0.1:9097"}}},
+			pool,
+		}
+	}
 	spec, err := filters.NewSpec(nil, "", raw)
 	if err != nil {
 		panic(fmt.Sprintf("c10: proxy spec rejected: %v", err))
@@ -350,7 +445,11 @@ func c10RunPool(in c10PIn) (obs c10PObs) {
 	locked = false
 
 	totals := func() (int64, int64) {
-		if w := px.mainPool.circuitBreakerWrapper; in.Cb && w != nil {
+		target := px.mainPool
+		if in.Cand && len(px.candidatePools) > 0 {
+			target = px.candidatePools[0]
+		}
+		if w := target.circuitBreakerWrapper; in.Cb && w != nil {
 			// resilience.circuitBreakerWrapper{*libcb.CircuitBreaker}: embedded field 0
 			if cb, ok := reflect.ValueOf(w).Field(0).Interface().(*libcb.CircuitBreaker); ok {
 				return libcb.VerifC10WindowTotals(cb)
@@ -421,7 +520,7 @@ func c10Serve(px *Proxy, in c10PIn, rq c10PReq) (o c10POut) {
 	if in.Retry {
 		max = in.Max
 	}
-	st := &c10State{req: rq, max: max, cancel: cancel, smax: in.Smax}
+	st := &c10State{req: rq, max: max, cancel: cancel, smax: in.Smax, tcp: in.Tcp}
 	c10States.Store(id, st)
 	defer c10States.Delete(id)
 
@@ -436,6 +535,9 @@ func c10Serve(px *Proxy, in c10PIn, rq c10PReq) (o c10POut) {
 		stdr.TransferEncoding = []string{"chunked"}
 	}
 	stdr.Header.Set("X-C10-Id", id)
+	if in.Cand {
+		stdr.Header.Set("X-C10-Cand", "1")
+	}
 	req, _ := httpprot.NewRequest(stdr)
 	if rq.Stream {
 		req.FetchPayload(-1)
@@ -534,6 +636,15 @@ func c10PGen(r *vfRand, adv bool) (in c10PIn) {
 		in.Smax = int64(r.PickInt(16, 64, 1024))
 	}
 	in.Prelude = r.Chance(1, 3)
+	in.Cand = r.Chance(1, 3)
+	if in.Cand && r.Chance(1, 2) {
+		in.Retry = false // candidate pool with a breaker / nothing but no retry policy
+		in.Cb = r.Chance(3, 4)
+	}
+	in.Tcp = !cancelCase && r.Chance(1, 5)
+	if in.Tcp {
+		in.Timeout = 0 // no deadline races on real connections
+	}
 	for _, c := range []int{500, 502, 503, 404} {
 		if r.Chance(2, 5) {
 			in.Fcodes = append(in.Fcodes, c)
@@ -603,6 +714,21 @@ func c10PGen(r *vfRand, adv bool) (in c10PIn) {
 			k := r.PickInt(0, 0, 1)
 			if c10PLo(in.Wait, in.Fnum, in.Fden, in.Expo, k) >= 20*c10PMs {
 				rq.Cancel = k
+			}
+		}
+		if in.Tcp {
+			// the real backend only answers (0) or reads-then-resets (1); no cancellation
+			rq.Cancel = -1
+			for i := range rq.Script {
+				switch rq.Script[i][0] {
+				case 0, 7, 8:
+					rq.Script[i][0] = 0
+					if c := rq.Script[i][1]; c == 204 || c == 301 {
+						rq.Script[i][1] = 200
+					}
+				default:
+					rq.Script[i] = [2]int{1, 0}
+				}
 			}
 		}
 		in.Reqs = append(in.Reqs, rq)
